@@ -164,7 +164,8 @@ func (b *B) TypeDeclNode(t *Type, f *File) *Node {
 			// type ( // doc \n X struct {...} ): the annotation is the doc comment of the spec inside the group
 			inner := *n
 			inner.TypeDecl = nil
-			*n = Node{TypeDecl: t, Pre: []*Line{b.line("type (")}, Kids: []*Node{&inner}, Post: []*Line{b.line(")")}}
+			// the group has a descriptive doc comment of its own: the member's doc comment is the one that counts
+			*n = Node{TypeDecl: t, Doc: []string{" Model types of the package (grouped declaration)."}, Pre: []*Line{b.line("type (")}, Kids: []*Node{&inner}, Post: []*Line{b.line(")")}}
 		}
 	}()
 	fld := func(name, typ string) {
@@ -655,6 +656,9 @@ func useTemplates() []Tmpl {
 		d2 := &Node{Pre: []*Line{b.line("type " + opn + " struct {")}, Kids: []*Node{b.tstmt("*%T", refT(t, SubField))}, Post: []*Line{b.line("}")}}
 		fn := &Node{Fn: &Func{Name: b.d("viaHolder")}}
 		fn.Pre = []*Line{b.line("func " + fn.Fn.Name + "() {")}
+		// the function is a listed constructor of the HOLDER types: that exempts nothing of the embedded type
+		d1.Doc = []string{" " + on + " holds a value.", " @constructor " + fn.Fn.Name}
+		d2.Doc = []string{" " + opn + " holds a pointer.", " @constructor " + fn.Fn.Name}
 		c, u := callNew(t, env)
 		x, y := b.v(), b.v()
 		pf := func(k UseKind, f string) *Use {
